@@ -117,13 +117,15 @@ impl MultiscalarMul for Straus {
             .collect();
 
         // This puts the scalar digits into a heap-allocated Vec.
-        // To ensure that these are erased, pass ownership of the Vec into a
-        // Zeroizing wrapper.
-        #[cfg_attr(not(feature = "zeroize"), allow(unused_mut))]
-        let mut scalar_digits: Vec<_> = scalars
-            .into_iter()
-            .map(|s| s.borrow().as_radix_16())
-            .collect();
+        // To ensure that these are erased, the Vec is owned by a Zeroizing
+        // wrapper from the start, so that the digits are also wiped if the
+        // caller's scalar iterator panics part-way.
+        let scalars = scalars.into_iter();
+        #[cfg(feature = "zeroize")]
+        let mut scalar_digits = zeroize::Zeroizing::new(Vec::with_capacity(scalars.size_hint().0));
+        #[cfg(not(feature = "zeroize"))]
+        let mut scalar_digits = Vec::with_capacity(scalars.size_hint().0);
+        scalar_digits.extend(scalars.map(|s| s.borrow().as_radix_16()));
 
         let mut Q = EdwardsPoint::identity();
         for j in (0..64).rev() {
@@ -136,9 +138,6 @@ impl MultiscalarMul for Straus {
                 Q = (&Q + &R_i).as_extended();
             }
         }
-
-        #[cfg(feature = "zeroize")]
-        zeroize::Zeroize::zeroize(&mut scalar_digits);
 
         Q
     }
